@@ -76,7 +76,7 @@ pub fn literal(v: &Value) -> String {
 
 impl Renderer {
     pub fn new() -> Self {
-        Self { helpers: BTreeMap::new(), files: vec![], import_dir: format!("/verif/work/imports/{}", std::process::id()) }
+        Self { helpers: BTreeMap::new(), files: vec![], import_dir: format!("{}/imports/{}", crate::util::work_dir(), std::process::id()) }
     }
 
     fn helper(&mut self, ty: &Value) -> usize {
